@@ -110,6 +110,11 @@ func runC13(cfg config) {
 		if strings.HasPrefix(v.coq, "VQty") || strings.HasPrefix(v.coq, "VStr") {
 			continue // quantities and strings are added below with this run's unit table / classification
 		}
+		if strings.HasPrefix(v.kind, "FHIR.time/") || strings.HasPrefix(v.kind, "FHIR.dateTime/") || strings.HasPrefix(v.kind, "FHIR.instant/") {
+			// elements of the C05 pool that this harness cannot observe faithfully: it reads results back through their
+			// printed form (milliseconds at most) and knows a DateTime element only by its UTC components
+			continue
+		}
 		if strings.HasPrefix(v.coq, "VDateTime") && v.env == nil {
 			// the date part of a DateTime is taken in the value's own offset
 			if m := reDTFrac.FindStringSubmatch(strings.TrimPrefix(v.lit, "@")); m != nil {
